@@ -782,7 +782,13 @@ func execC17(t *testing.T, c *Case) *Verdict {
 		if c.Knobs.ReuseOpts {
 			// option VALUES are reused between calls, the way an application keeps its options around
 			compileOptCache = map[string]fhirpath.CompileOption{}
-			in.evalOptCache = map[string]fhirpath.EvaluateOption{}
+			var lists [][]EOpt
+			for ci := range c.C17.Clients {
+				for oi := range c.C17.Clients[ci] {
+					lists = append(lists, c.C17.Clients[ci][oi].Opts)
+				}
+			}
+			in.prepareEvalOpts(lists...)
 			v.Stats.probe("option-values-reused")
 		}
 		defer func() { compileOptCache = nil }()
